@@ -573,6 +573,11 @@ func (r *relayRig) addReq(i int) {
 			q.body[k] = byte('A' + (k*5+i)%26)
 		}
 		q.chunked = bl > 0 && pick(40)
+		if bl > 0 && pick(15) {
+			// the client announces it would wait for a 100 (it sends the body without waiting, as it may)
+			q.hdrs = append(q.hdrs, [2]string{"Expect", "100-continue"})
+			r.c.Probe("expect-100-continue")
+		}
 	}
 	// backend reply
 	sc := &bscript{status: []int{200, 200, 201, 404, 500, 302, 204, 304, 418}[st.Draw(9)]}
